@@ -41,6 +41,14 @@ def paramsOrGreville (b : Basis K) : Option (List K) → PyM (List K)
   | some ts => .ok ts
   | none => (b.greville).map Array.toList
 
+/-- A control-point matrix (`n` rows of `m` components) as the `n × m` control net of a curve. -/
+def matTensor (c : Mat K) (n m : ℕ) : Tensor K :=
+  { shape := [n, m], data := Array.ofFn (n := n * m) (fun idx => c.get (idx.val / m) (idx.val % m)) }
+
+/-- `Curve(basis, cp)` — the object the curve factories return. -/
+def curveOf (b : Basis K) (c : Mat K) : Obj K :=
+  { bases := #[b], cps := matTensor c c.size c.ncols, rational := false }
+
 /-- `curve_factory.interpolate(x, basis, t)`: `N = basis.evaluate(t)`, `spsolve(N, x)`.
     (`spsolve` raises `ValueError` for a non-square matrix or a right-hand side of other height.) -/
 def interpolateCurve (b : Basis K) (tol : K) (t : Option (List K)) (x : Mat K) : PyM (Mat K) := do
